@@ -20,7 +20,7 @@ from vlib.gen import c03_grammar as CG
 IPHASES = CG.IPHASES
 EXEC_ORDER = CG.PHASES
 ABBR = {'setup': 's', 'before-assert': 'b', 'assert': 'a', 'cleanup': 'c'}
-MODES = ['run', 'keep', 'act', 'symbol', 'symbol-def', 'symbol-ref', 'suite']
+MODES = ['run', 'keep', 'act', 'symbol', 'symbol-def', 'symbol-ref', 'symbol-suite', 'suite']
 SUITE_NAME = 'exactly.suite'
 
 
@@ -209,6 +209,9 @@ def argv_for(mode, built):
         return {}, ['symbol'] + so + ['t.case', 'S']
     if mode == 'symbol-ref':
         return {}, ['symbol'] + so + ['t.case', 'S', '--ref']
+    if mode == 'symbol-suite':
+        # the report about the suite's own phase sections
+        return {}, ['symbol', 'suite', built['suite']]
     if mode == 'suite':
         if built['suite']:
             text = built['files'][built['suite']]
@@ -233,11 +236,12 @@ _OP_WEIGHT = {'wrong-type': 5, 'defined-later': 3, 'undefined': 2, 'self-referen
 _ONE_IN_4 = st.sampled_from([False, False, False, True])
 _ONE_IN_12 = st.sampled_from([False] * 11 + [True])
 _ONE_IN_30 = st.sampled_from([False] * 29 + [True])
+_ONE_IN_150 = st.sampled_from([False] * 149 + [True])
 
 
 @st.composite
 def generated_cases(draw, tier='quick'):
-    effects = {p: draw(st.lists(_EFFECT, min_size=1, max_size=3)) for p in IPHASES}
+    effects = {p: draw(st.lists(_EFFECT, min_size=1, max_size=3 if tier == 'quick' else 5)) for p in IPHASES}
     if draw(_ONE_IN_12):
         p = draw(st.sampled_from(IPHASES))
         effects[p][0] = 'probe'
@@ -290,7 +294,7 @@ def generated_cases(draw, tier='quick'):
     names = sorted(fam)
     weighted = [n for n in names for _ in range(_OP_WEIGHT.get(n, 2))]
     defects = []
-    n_def = draw(st.integers(1, 5))
+    n_def = draw(st.integers(1, 5 if tier == 'quick' else 8))
     for _ in range(n_def):
         if not weighted:
             break
@@ -301,8 +305,14 @@ def generated_cases(draw, tier='quick'):
             op['later'] = dict(op['later'], k=draw(st.integers(0, 3)))
         mode = draw(st.sampled_from(['run'] * 8 + ['keep', 'act', 'symbol', 'symbol', 'symbol-def', 'symbol-ref',
                                                   'suite', 'suite']))
+        if where == 'suite' and mode.startswith('symbol') and draw(st.booleans()):
+            mode = 'symbol-suite'
         defects.append({'ei': ei, 'op': op, 'mode': mode})
     case['defects'] = defects
+    if tier == 'thorough':
+        case['subproc'] = draw(_ONE_IN_30)
+    else:
+        case['subproc'] = draw(_ONE_IN_150)
     return case
 
 
@@ -364,7 +374,10 @@ def enumerated_cases(tier):
                 op = dict(op)
                 if 'later' in op:
                     op['later'] = dict(op['later'], k=rnd.randrange(4))
-                chosen.append({'ei': ei, 'op': op, 'mode': _ENUM_MODES[(k + len(chosen)) % len(_ENUM_MODES)]})
+                mode = _ENUM_MODES[(k + len(chosen)) % len(_ENUM_MODES)]
+                if where == 'suite' and mode.startswith('symbol') and len(chosen) % 2:
+                    mode = 'symbol-suite'
+                chosen.append({'ei': ei, 'op': op, 'mode': mode})
         for i in range(0, len(chosen), 10):
             c = dict(case)
             c['defects'] = chosen[i:i + 10]
